@@ -139,6 +139,9 @@ fn pure_reads() -> Vec<(&'static str, Vec<Ty>, Ty)> {
         ("child_count", vec![Ty::Nat], Ty::Nat),
         ("child_ids", vec![Ty::Nat], Ty::List(Box::new(Ty::Nat))),
         ("get_child_id", vec![Ty::Nat, Ty::Nat], Ty::Nat),
+        // flexprog.rs: the pure reads of `LayoutFlexboxContainer`
+        ("get_flexbox_child_style", vec![Ty::Nat], Ty::adt("Style", vec![])),
+        ("get_flexbox_container_style", vec![Ty::Nat], Ty::adt("Style", vec![])),
     ]
 }
 pub fn is_pure_read(name: &str) -> bool {
@@ -197,7 +200,25 @@ impl<'a> Ctx<'a> {
             return Ok(None);
         }
         let name = m.method.to_string();
-        if !["map", "filter", "all", "enumerate", "collect", "iter", "fold", "len", "skip_while"].contains(&name.as_str()) {
+        // flexprog.rs: `x.into()` for `x: f32` at an expected `Option<f32>` (`impl From<T> for Option<T>`: `some`) or `AvailableSpace`
+        // (`impl From<f32> for AvailableSpace`, translated in Generated/AvailableSpace.lean)
+        if name == "into" && m.args.is_empty() {
+            let want_opt = matches!(_expect, Ty::Opt(t) if **t == Ty::F32);
+            let want_av = matches!(_expect, Ty::Adt(n, _) if n == "AvailableSpace");
+            if want_opt || want_av {
+                let (recv, rt) = self.expr(&m.receiver, &Ty::F32)?;
+                if rt == Ty::F32 {
+                    if want_opt {
+                        return Ok(Some((L::app("some", vec![recv]), Ty::opt(Ty::F32))));
+                    }
+                    if let Some(sig) = self.w.fns.get(&("AvailableSpace".to_string(), "from".to_string())).and_then(|v| v.iter().find(|s| s.params.len() == 1 && s.params[0].1 == Ty::F32)).cloned() {
+                        return Ok(Some((L::App(sig.lean.clone(), vec![recv]), Ty::adt("AvailableSpace", vec![]))));
+                    }
+                }
+            }
+            return Ok(None);
+        }
+        if !["map", "filter", "all", "enumerate", "collect", "iter", "fold", "len", "skip_while", "count"].contains(&name.as_str()) {
             return Ok(None);
         }
         let (recv, rt) = self.expr(&m.receiver, &Ty::Unknown)?;
@@ -208,7 +229,7 @@ impl<'a> Ctx<'a> {
         let args: Vec<&Expr> = m.args.iter().collect();
         match (name.as_str(), args.len()) {
             ("iter", 0) | ("collect", 0) => Ok(Some((recv, rt.clone()))),
-            ("len", 0) => Ok(Some((L::app("List.length", vec![recv]), Ty::Nat))),
+            ("len", 0) | ("count", 0) => Ok(Some((L::app("List.length", vec![recv]), Ty::Nat))),
             ("skip_while", 1) => {
                 let (f, ft) = self.closure_pat(args[0], &[t], &Ty::Bool)?;
                 if ft != Ty::Bool {
@@ -325,6 +346,11 @@ impl<'a> Ctx<'a> {
                 self.locals = saved;
                 r.map(Some)
             }
+            // flexprog.rs: `local.m(args);` for a translated `&mut self` method returning `()` (the statement form of loops.rs)
+            Expr::MethodCall(m) if !self.is_tree_expr(&m.receiver) && !self.interacts(e) => match self.method_stmt(m, conts) {
+                Ok(l) => Ok(Some(l)),
+                Err(_) => Ok(None),
+            },
             Expr::If(_) | Expr::Match(_) => {
                 if let Some(l) = self.join_stmt(e, conts)? {
                     return Ok(Some(l));
@@ -564,6 +590,15 @@ impl<'a> Ctx<'a> {
         }
         if let Some(r) = self.local_prog_call(l, rest, value_tail, conts)? {
             return Ok(Some(r));
+        }
+        // flexprog.rs: `let child_style = tree.get_flexbox_child_style(n);` is a style seen through `FlexboxItemStyle` (: CoreStyle)
+        if let (Some(i), Pat::Ident(pi)) = (&l.init, &l.pat) {
+            if let Expr::MethodCall(m) = strip(&i.expr) {
+                if m.method == "get_flexbox_child_style" && self.is_tree_expr(&m.receiver) {
+                    self.views.insert(pi.ident.to_string(), "FlexboxItemStyle".into());
+                    self.ext.view_super_core = true;
+                }
+            }
         }
         let init = match &l.init {
             Some(i) if i.diverge.is_none() => &*i.expr,
@@ -838,19 +873,19 @@ fn param_ty(cx: &Ctx, t: &syn::Type) -> R<Ty> {
     }
 }
 
-fn generics() -> HashMap<String, Ty> {
+pub(crate) fn generics() -> HashMap<String, Ty> {
     [("NodeId".to_string(), Ty::Nat)].into_iter().collect()
 }
 
 /// one function of block.rs in interaction form
-fn prog_fn(out: &mut Out, w: &mut World, f: &syn::ItemFn, base: &ProgPlan, doc_extra: &str) {
+pub(crate) fn prog_fn(out: &mut Out, w: &mut World, f: &syn::ItemFn, base: &ProgPlan, doc_extra: &str, ns: &str) {
     let name = f.sig.ident.to_string();
     let r = (|| -> R<(String, FnSig)> {
         let mut pp = base.clone();
         let mut cx = Ctx::new(w, None, generics());
         cx.ext.block = true;
         cx.ext.fn_name = ident(&name);
-        cx.ext.ns = NS.to_string();
+        cx.ext.ns = ns.to_string();
         if !f.sig.generics.params.iter().all(|g| matches!(g, syn::GenericParam::Lifetime(_))) {
             return Err("generic parameter".into());
         }
@@ -867,7 +902,7 @@ fn prog_fn(out: &mut Out, w: &mut World, f: &syn::ItemFn, base: &ProgPlan, doc_e
                 _ => return Err("parameter pattern".into()),
             };
             if let Some(trs) = crate::emit::impl_traits(&t.ty) {
-                if trs.iter().any(|x| x == "LayoutPartialTree" || x == "LayoutBlockContainer") {
+                if trs.iter().any(|x| x == "LayoutPartialTree" || x == "LayoutBlockContainer" || x == "LayoutFlexboxContainer") {
                     if pp.tree_param.is_some() {
                         return Err("two tree parameters".into());
                     }
@@ -908,12 +943,15 @@ fn prog_fn(out: &mut Out, w: &mut World, f: &syn::ItemFn, base: &ProgPlan, doc_e
                 ret.clone()
             }
             Some((n, t)) => {
-                if ret == Ty::Unit {
-                    return Err("`&mut` parameter of a function returning `()`".into());
-                }
-                cx.ret = RetMode::MutSelfVal;
                 cx.mut_param = Some(n.clone());
-                Ty::Tuple(vec![t.clone(), ret.clone()])
+                if ret == Ty::Unit {
+                    // flexprog.rs: the function answers the updated `&mut` parameter
+                    cx.ret = RetMode::MutSelfUnit;
+                    t.clone()
+                } else {
+                    cx.ret = RetMode::MutSelfVal;
+                    Ty::Tuple(vec![t.clone(), ret.clone()])
+                }
             }
         };
         let body = cx.body(&f.block)?;
@@ -934,6 +972,7 @@ fn prog_fn(out: &mut Out, w: &mut World, f: &syn::ItemFn, base: &ProgPlan, doc_e
         read_params.extend(params);
         let params = read_params;
         let upd = match &mut_param {
+            Some((n, _)) if ret == Ty::Unit => format!(": the `&mut` parameter `{n}` is returned updated"),
             Some((n, _)) => format!(": the `&mut` parameter `{n}` is returned updated, paired with the result"),
             None => String::new(),
         };
@@ -943,7 +982,7 @@ fn prog_fn(out: &mut Out, w: &mut World, f: &syn::ItemFn, base: &ProgPlan, doc_e
             w.lean_ty(&lean_ret),
             body.render(2, true)
         );
-        let sig = FnSig { lean: format!("{NS}.{}", ident(&name)), self_ty: None, params, ret: lean_ret, alpha: true, mut_self: false, dropped: 0, mut_first: false, prog: true };
+        let sig = FnSig { lean: format!("{ns}.{}", ident(&name)), self_ty: None, params, ret: lean_ret, alpha: true, mut_self: false, dropped: 0, mut_first: false, prog: true };
         Ok((text, sig))
     })();
     match r {
@@ -1063,7 +1102,7 @@ fn geometry_helpers(repo: &str, env: &CfgEnv, out: &mut Out, w: &mut World) -> R
 pub const TREE_HEAD_NAT: &str = "<tree:Nat>";
 
 /// the tree plan with `NodeId := Nat` (the child's index)
-fn plan_at_nat(w: &mut World, base: &ProgPlan) -> ProgPlan {
+pub(crate) fn plan_at_nat(w: &mut World, base: &ProgPlan) -> ProgPlan {
     let sub: HashMap<String, Ty> = [("NodeId".to_string(), Ty::Nat)].into_iter().collect();
     let mut pp = base.clone();
     pp.ty_lean = "Gen.Tree.Prog α Nat".into();
@@ -1145,7 +1184,7 @@ pub fn extract(repo: &str, w: &mut World) -> Result<String, String> {
             Item::Fn(f) if f.sig.ident == name => Some(f),
             _ => None,
         }) {
-            Some(f) if env.enabled(&f.attrs)? => prog_fn(&mut out, w, f, &base, ""),
+            Some(f) if env.enabled(&f.attrs)? => prog_fn(&mut out, w, f, &base, "", NS),
             _ => out.errors.push(format!("required function `{name}` is missing from the source")),
         }
     }
